@@ -2,7 +2,7 @@
    input; [check_case] compares with the model (agree) and evaluates the executable spec of
    Spec.v on the implementation's observation (spec_ok).
    result code: 0 agree/spec_ok, 1 differ/spec_ok, 2 differ/spec fails, 3 agree/spec fails. *)
-From Verif Require Export C12.Model C12.Spec.
+From Verif Require Export C12.Model C12.Spec C12.Print.
 From VerifGen Require Import Consts.
 From Coq Require Export Uint63.
 Open Scope N_scope.
@@ -79,7 +79,14 @@ Inductive case :=
    reopened and drained single-threaded: the blocks in queue order; drain_ok = the queue was
    read to its end without an error; panicked = a WriteShard call or the drain panicked *)
 | CHHW (shard : N) (batches : list (list (bytes * bytes * Z) * bool)) (blocks : list bytes)
-       (drain_ok panicked : bool).
+       (drain_ok panicked : bool)
+(* models.NewPoint("m", nil, Fields{...}, time.Unix(0, nano)) with the typed field values [afs]
+   (given in sort.Strings order of their names), then String() and ParsePointsWithPrecision of
+   that text at precision n: ftexts = what strconv.AppendFloat(bits,'f',-1,64) gives for the float
+   fields (recorded from the real strconv); made = NewPoint returned a point without panicking;
+   str = String(); o = the parse of str *)
+| CPrint (afs : list (bytes * fvalue)) (nano : Z) (ftexts : list (N * bytes)) (uint : bool)
+         (floats : list (bytes * option N)) (made : bool) (str : bytes) (o : pobs).
 
 Definition oracle (tbl : list (bytes * option N)) (s : bytes) : option N :=
   match find (fun e => bytes_eqb (fst e) s) tbl with Some e => snd e | None => None end.
@@ -291,6 +298,24 @@ Definition hw_agree (shard : N) (bs : list (list (bytes * bytes * Z) * bool)) (b
   && forallb hw_small (map hw_batch bs)
   && exactly_once bytes_eqb (map (marshal_write shard) (hw_acked bs)) (map (marshal_write shard) (hw_unacked bs)) blocks.
 
+(* ---- printing a point built from typed values ---- *)
+Definition ff_oracle (tbl : list (N * bytes)) (b : N) : bytes :=
+  match find (fun e => fst e =? b) tbl with Some e => snd e | None => [] end.
+
+(* "m", space, the printed field set, space, decimal nanoseconds *)
+Definition print_line (ff : N -> bytes) (afs : list (bytes * fvalue)) (nano : Z) : bytes :=
+  [109; c_space] ++ print_fields ff afs ++ [c_space] ++ fmt_z nano.
+
+(* the printed point parsed again is the point it was built from: measurement m, the same field
+   names with the same types and values/bits in the same order, the same instant *)
+Definition print_spec_ok (afs : list (bytes * fvalue)) (nano : Z) (made : bool) (o : pobs) : bool :=
+  made && keys_increasing afs &&
+  match o with
+  | POk [OP key (FOk fl) nano' _ _ _ _ _] false =>
+      bytes_eqb key [109] && list_eqb field_eqb fl afs && (nano' =? nano)%Z
+  | _ => false
+  end.
+
 Definition check_case (c : case) : N :=
   match c with
   | CParse lines aps dflt prec uint floats whole per_line perm_ok =>
@@ -343,6 +368,10 @@ Definition check_case (c : case) : N :=
       code (bytes_eqb (model_escape which input) output) rt
   | CHHW shard bs blocks drain_ok panicked =>
       code (hw_agree shard bs blocks drain_ok panicked) (hw_spec_ok shard bs blocks drain_ok panicked)
+  | CPrint afs nano ftexts uint floats made str o =>
+      let ff := ff_oracle ftexts in
+      code (made && bytes_eqb str (print_line ff afs nano) && parse_agrees (oracle floats) uint str 0 [110] o)
+           (pobs_ok o && print_spec_ok afs nano made o)
   | CTime ts dflt prec floats o =>
       code (parse_agrees (oracle floats) false (ts_line ts) dflt prec o)
            (pobs_ok o && ts_obs_ok ts prec o)
